@@ -186,9 +186,9 @@ func (p *Prov) of(v ssa.Value, depth int, seen map[ssa.Value]bool) string {
 		if fn.Signature.Recv() != nil && idx == 0 {
 			return "recv"
 		}
-		return "param:" + v.Name()
+		return "param:" + PinnedName(v.Parent(), v.Name())
 	case *ssa.FreeVar:
-		return "free:" + v.Name()
+		return "free:" + PinnedName(v.Parent(), v.Name())
 	case *ssa.UnOp:
 		switch v.Op {
 		case token.MUL:
